@@ -195,8 +195,7 @@ type LState struct {
 	hasErrorFunc bool
 	mainLoop     func(*LState, *callFrame)
 	ctx          context.Context
-	ctxCancelFn  context.CancelFunc
-	ctxBase      context.Context
+	ctxOwned     *threadContext
 	yieldNRet    int
 }
 
